@@ -50,9 +50,13 @@ type c15Server struct {
 	calls   int
 	added   [][]gocrawlhq.URL
 	deleted [][]gocrawlhq.URL
+	stall   chan struct{} // non-nil: no request is answered until it is closed
 }
 
 func (s *c15Server) ServeHTTP(w http.ResponseWriter, r *http.Request) {
+	if s.stall != nil {
+		<-s.stall
+	}
 	s.mu.Lock()
 	defer s.mu.Unlock()
 	i := s.calls
@@ -307,6 +311,81 @@ func c15Finisher(maxItems int) {
 			}
 		}
 		verifrt.Assert(cnt == 1, "C15 every finished seed is acknowledged to HQ by its id exactly once despite HQ errors "+tag)
+	}
+	cancel()
+	globalHQ.wg.Wait()
+	verifrt.Cover("stopped")
+}
+
+// VerifH_C15_finisher_stalled: crawl HQ stops answering for a while (a request hangs), finished seeds keep
+// arriving one by one and the 5 s timer keeps flushing them as non-full batches until the sender, the dispatcher and
+// the hand-over channel are all occupied; then HQ answers again: every finished seed is still acknowledged by its id,
+// exactly once - a stalled HQ delays the acknowledgements, it never drops them.
+func VerifH_C15_finisher_stalled() {
+	_ = stats.Init()
+	config.VerifSet(&config.Config{WorkersCount: 2}) // batches of two, one sender
+	client := &gocrawlhq.Client{Key: "k", Secret: "s", Project: "p"}
+	var srv *c15Server
+	stall := make(chan struct{})
+	if verifrt.Symbolic() {
+		verifmodel.HQFaults, verifmodel.HQTimeout = nil, false
+		verifmodel.HQCalls, verifmodel.HQDeleted = 0, nil
+		verifmodel.HQStall = stall
+		defer func() { verifmodel.HQStall = nil }()
+	} else {
+		srv = &c15Server{stall: stall}
+		ts := httptest.NewServer(srv)
+		defer ts.Close()
+		client.HTTPClient = ts.Client()
+		client.URLsEndpoint, _ = url.Parse(ts.URL + "/urls")
+	}
+	ctx, cancel := context.WithCancel(context.Background())
+	finish := make(chan *models.Item, 4)
+	globalHQ = &hq{ctx: ctx, cancel: cancel, finishCh: finish, client: client}
+	globalHQ.wg.Add(1)
+	go finisher()
+	n := 3 + verifrt.Choice("seeds-3", 2) // 3: everything just fits; 4: the fourth timer flush finds the hand-over channel full
+	for i := 0; i < n; i++ {
+		u := &models.URL{Raw: "http://s.example/" + string(rune('a'+i))}
+		_ = u.Parse()
+		finish <- models.NewItem("id"+string(rune('0'+i)), u, "")
+		verifrt.Quiesce()
+		verifrt.EnvTicksEach(1) // the 5 s timer flushes the non-full batch
+		verifrt.Quiesce()
+		if !verifrt.Symbolic() {
+			time.Sleep(5500 * time.Millisecond)
+		}
+	}
+	if n == 4 {
+		verifrt.Cover("hand-over-channel-full")
+	}
+	close(stall) // crawl HQ answers again
+	for round := 0; round < 3; round++ {
+		verifrt.Quiesce()
+		verifrt.EnvTicksEach(1)
+		verifrt.Quiesce()
+		if !verifrt.Symbolic() {
+			time.Sleep(2 * time.Second)
+		}
+	}
+	var deleted [][]gocrawlhq.URL
+	if verifrt.Symbolic() {
+		deleted = verifmodel.HQDeleted
+	} else {
+		srv.mu.Lock()
+		deleted = srv.deleted
+		srv.mu.Unlock()
+	}
+	for i := 0; i < n; i++ {
+		cnt := 0
+		for _, b := range deleted {
+			for _, u := range b {
+				if u.ID == "id"+string(rune('0'+i)) {
+					cnt++
+				}
+			}
+		}
+		verifrt.Assert(cnt == 1, "C15 every finished seed is acknowledged to HQ by its id exactly once although HQ did not answer for a while")
 	}
 	cancel()
 	globalHQ.wg.Wait()
